@@ -11,8 +11,10 @@ value was decided both ways by z3 or shown infeasible), the number of paths,
 unknown/aborted paths, z3 check() calls + seconds, concrete samples and
 counterexamples (realised from the solver model).
 """
+import collections
 import inspect
 import sys
+import threading
 import time
 import traceback
 from collections import Counter
@@ -132,10 +134,70 @@ def from_jsonable(v):
     return v
 
 
+# ---------------------------------------------------------------- process state
+# Every explored path and every native replay stands for a process of its own.  Module-level and class-level
+# containers of the package under test (caches, registries, memo tables) would carry (symbolic) values of one path
+# into the next: they are put back to their content at freeze time before each path / replay.  Identity of every
+# container is kept (restored in place), so aliases held by the code stay valid.  State a path's own earlier calls
+# leave behind still reaches its later calls: that is what the multi-call query families look at.
+_FROZEN: list = []
+_CONTAINERS = (dict, list, set, collections.deque)
+
+
+def _freeze_obj(obj, depth, seen):
+    if id(obj) in seen or depth > 3:
+        return
+    seen.add(id(obj))
+    if isinstance(obj, dict):
+        copy = dict(obj)
+        vals = list(obj.values())
+    else:
+        copy = list(obj)
+        vals = copy
+    _FROZEN.append((obj, copy))
+    for v in vals:
+        if isinstance(v, _CONTAINERS):
+            _freeze_obj(v, depth + 1, seen)
+
+
+def freeze_process_state(prefix: str = "ombott") -> int:
+    """remember the content of every module-level / class-level container of the package under test"""
+    del _FROZEN[:]
+    seen: set = set()
+    for mname, m in sorted(sys.modules.items()):
+        if m is None or not (mname == prefix or mname.startswith(prefix + ".")):
+            continue
+        for name, val in list(vars(m).items()):
+            if name.startswith("__"):
+                continue
+            if isinstance(val, _CONTAINERS):
+                _freeze_obj(val, 0, seen)
+            elif isinstance(val, threading.local):       # this thread's view
+                _freeze_obj(val.__dict__, 0, seen)
+            elif isinstance(val, type) and getattr(val, "__module__", None) == mname:
+                for an, av in list(vars(val).items()):
+                    if not an.startswith("__") and isinstance(av, _CONTAINERS):
+                        _freeze_obj(av, 0, seen)
+    return len(_FROZEN)
+
+
+def restore_process_state() -> None:
+    for obj, copy in _FROZEN:
+        if isinstance(obj, list):
+            obj[:] = copy
+        elif isinstance(obj, (dict, set)):
+            obj.clear()
+            obj.update(copy)
+        else:
+            obj.clear()
+            obj.extend(copy)
+
+
 def run_native(fn: Callable, args: Dict[str, Any]):
     """Run a harness function on concrete arguments, no tracer.
     Returns ('ok'|'rejected'|'fail', detail)."""
     _path_cover.clear()
+    restore_process_state()
     try:
         r = fn(**args)
     except Rejected:
@@ -168,6 +230,7 @@ def explore(qid: str, fn: Callable, *, timeout: float, per_path_timeout: float =
                 break
             res.paths += 1
             _path_cover.clear()
+            restore_process_state()
             space = StateSpace(
                 execution_deadline=itr_start + per_path_timeout,
                 model_check_timeout=per_path_timeout / 2,
